@@ -1,6 +1,6 @@
 // C08 harness: segment id generators (x/uuid/seq.go) over a scripted counter store.
 //
-// input    = (events raws)
+// input    = (events guards)   guards: adapters.go
 // event    = (0 g step) NewSeqIDGen | (1 g a c) Init | (2 g a c) Next | (4 g a c) MustNext | (3 g) crash (the
 //
 //	generator object is dropped; a later New creates the next incarnation)
@@ -300,15 +300,15 @@ func run(in Sx) Sx {
 	for _, s := range in.At(0).L {
 		evs = append(evs, eventOf(s))
 	}
-	var raws []int64
+	var gs []gscript
 	for _, s := range in.At(1).L {
-		raws = append(raws, s.Int64())
+		gs = append(gs, gscriptOf(s))
 	}
-	if in.Len() > 2 { // (events raws 1): through the package-level API
-		return List(outsSx(playAPI(evs, &store{})), guardSx(runGuard(raws)))
+	if in.Len() > 2 { // (events guards 1): through the package-level API
+		return List(outsSx(playAPI(evs, &store{})), goutsSx(runGuards(gs)))
 	}
 	outs := play(evs, &store{})
-	return List(outsSx(outs), guardSx(runGuard(raws)))
+	return List(outsSx(outs), goutsSx(runGuards(gs)))
 }
 
 type gout struct {
@@ -625,6 +625,8 @@ func history(r *Rng, style string, out *Out) ([]event, []outc) {
 	return evs, outs
 }
 
+var mongoRuns int
+
 func gen(a Args, out *Out) {
 	r := NewRng(a.Seed)
 	checkGuardText(out)
@@ -632,9 +634,9 @@ func gen(a Args, out *Out) {
 	if a.Thorough() {
 		nhist = 6000
 	}
-	record := func(kind string, evs []event, outs []outc, raws []int64) {
-		in := List(eventsSx(evs), Ints(raws...))
-		obs := List(outsSx(outs), guardSx(runGuard(raws)))
+	record := func(kind string, evs []event, outs []outc, gs []gscript) {
+		in := List(eventsSx(evs), gscriptsSx(gs))
+		obs := List(outsSx(outs), goutsSx(runGuards(gs)))
 		nids, nasked := 0, 0
 		for i, o := range outs {
 			if o.kind == 2 {
@@ -657,11 +659,23 @@ func gen(a Args, out *Out) {
 	for k := 0; k < nhist; k++ {
 		style := styles[k%len(styles)]
 		evs, outs := history(r, style, out)
-		var raws []int64
-		if k%4 == 0 {
-			raws = guardRaws(r)
+		var gs []gscript
+		if k%2 == 0 {
+			a := int64(k / 2 % nAdapters)
+			if a == 3 && mongoRuns >= 60 {
+				a = int64(k / 2 % 3) // every MongoStore leaves its client (monitors, sockets) behind
+			}
+			if a == 3 {
+				mongoRuns++
+			}
+			g := gscript{adapter: a, cs: guardRaws(r)}
+			if a == 2 && r.Bool() {
+				g.init = int64(r.Range(1, 6)) // the table already holds a counter
+			}
+			out.Count(fmt.Sprintf("guard-script:adapter-%d", a))
+			gs = append(gs, g)
 		}
-		record(style, evs, outs, raws)
+		record(style, evs, outs, gs)
 	}
 	t0 := time.Now()
 	genConcurrent(a, out, r.Fork())
